@@ -40,7 +40,7 @@ type c16Spec struct {
 type c16Harness struct{}
 
 var peerIDPool = []string{"host-1", "a b", "x&y=z", "ünï", "id#frag", "p/q", "100%", "plus+sign", "q?x=1", "colon:id", "semi;colon", "comma,id"}
-var turnSpellings = []string{"turn:turn.example.org:3478", "turns:turn.example.org:5349", "turn://turn.example.org:3478", "turns://turn.example.org:5349?servername=alt.example.org", "turn:turn.example.org:3478?transport=tcp", "turn:turn.example.org:3478?transport=udp", "turn.example.org:3478", "turn:10.1.2.3:3478"}
+var turnSpellings = []string{"turn:turn.example.org:3478", "turns:turn.example.org:5349", "turn://turn.example.org:3478", "turns://turn.example.org:5349?servername=alt.example.org", "turn:turn.example.org:3478?transport=tcp", "turn:turn.example.org:3478?transport=udp", "turn.example.org:3478", "turn:10.1.2.3:3478", "turn:[2001:db8::1]:3478?transport=tcp", "turns://[2001:db8::2]:5349?servername=alt.example.org", "turn:[2001:db8::3]:3478"}
 
 type flagChoice struct {
 	name string
@@ -469,7 +469,7 @@ func turnEndpoint(raw string) (addr string, useTLS, useTCP bool, serverName stri
 	addr = r
 	useTCP = useTLS
 	if i := strings.LastIndexByte(r, ':'); i >= 0 {
-		serverName = r[:i]
+		serverName = strings.TrimSuffix(strings.TrimPrefix(r[:i], "["), "]") // an IPv6 literal is written in brackets only next to a port
 	}
 	for _, kv := range strings.Split(query, "&") {
 		switch {
